@@ -19,6 +19,12 @@ theorem floatResult (x : Float) (pos : Pos) (w : String) : PosOK E P (floatResul
 theorem listItems {v : RVal} (hv : ValOK P v) : PosOK E P (listItems v) := by unfold Ckl.listItems; posok
 theorem collAsList {c : Cell} (hc : CellOK P c) : PosOK E P (collAsList c) := by unfold Ckl.collAsList; posok
 theorem cmpLt (a b : RVal) : PosOK E P (cmpLt a b) := by unfold Ckl.cmpLt; posok
+theorem dateResM (r : DateRes) {pos : Pos} (h : ∀ msg, E msg pos []) : PosOK E P (dateResM r pos) := by
+  unfold Ckl.dateResM; posok
+theorem callDate (name : String) (args : List (String × RVal)) {pos : Pos} (h : ∀ msg, E msg pos []) (m : EvalM RVal)
+    (hm : callDate name args pos = some m) : PosOK E P m := by
+  unfold Ckl.callDate at hm
+  split at hm <;> first | (injection hm with hm; subst hm; exact dateResM _ h) | (cases hm)
 end PosOK
 end
 
@@ -26,6 +32,7 @@ macro_rules | `(tactic| posok_lib) => `(tactic| (apply PosOK.floatResult <;> fir
 macro_rules | `(tactic| posok_lib) => `(tactic| (apply PosOK.listItems <;> first | vok | eok))
 macro_rules | `(tactic| posok_lib) => `(tactic| (apply PosOK.collAsList <;> first | vok | eok))
 macro_rules | `(tactic| posok_lib) => `(tactic| (apply PosOK.cmpLt <;> first | vok | eok))
+macro_rules | `(tactic| posok_lib) => `(tactic| (apply PosOK.dateResM <;> first | vok | eok))
 
 section
 variable {E : String → Pos → List (String × Pos) → Prop} {P : Pos → Prop}
@@ -85,7 +92,7 @@ theorem PosOK.callPure {E : String → Pos → List (String × Pos) → Prop} {P
     (m : EvalM RVal) (hm : callPure name args div0 pos = some m) : PosOK E P m := by
   unfold Ckl.callPure at hm
   dsimp only at hm
-  split at hm <;> first | (injection hm with hm; subst hm; posok) | (cases hm)
+  split at hm <;> first | (injection hm with hm; subst hm; posok) | (exact PosOK.callDate _ _ h _ hm) | (cases hm)
   apply PosOK.modifyS
   intro s hs
   refine hs.setCell _ (ValsOK.rm _ _ ?_)
